@@ -192,7 +192,18 @@ func rootfindEngine(args []string) error {
 				"args": []float64{a, b, c, initX, minX, maxX, tol, conv, float64(maxIter), float64(dxMode)}})
 			continue
 		}
-		enc.Encode(map[string]interface{}{"ev": "start", "min": rankOf(xsS, minX), "max": rankOf(xsS, maxX), "init": rankOf(xsS, initX),
+		// pairs of (ranked) x values closer than the convergence limit
+		near := [][2]int{}
+		for i := 0; i < len(xsS); i++ {
+			for j := i + 1; j < len(xsS); j++ {
+				if math.Abs(xsS[i]-xsS[j]) < conv {
+					near = append(near, [2]int{i + 1, j + 1})
+				} else {
+					break
+				}
+			}
+		}
+		enc.Encode(map[string]interface{}{"ev": "start", "maxiter": maxIter, "near": near, "min": rankOf(xsS, minX), "max": rankOf(xsS, maxX), "init": rankOf(xsS, initX),
 			"zero": rankOf(fsS, 0), "tol": rankOf(fsS, tol), "mono": fam.mono, "hasdx": di != nil, "family": fam.name,
 			"raw": []float64{a, b, c, initX, minX, maxX, tol, conv, float64(maxIter), float64(dxMode)}})
 		for _, e := range log {
